@@ -117,6 +117,54 @@ int main(int argc, char** argv) {
         r2.reset(); x.reset();
         expect_destroyed({0, 1, 2, 3}, 4);
     }
+    else if (sc == "shared_child") {       // two parents hold a handle to the same, already shared child; released in both orders
+        for (int order = 0; order < 2; ++order) {
+            size_t base = g_dtor.size();
+            P child(new Node());                                   // id base
+            P a(new Node()), b(new Node());                        // base+1, base+2
+            a->next = child; b->other = child;
+            expect(child.use_count() == 3, "count of the shared child");
+            child.reset();
+            if (order == 0) { a.reset(); expect(g_dtor[base] == 0 && g_dtor[base + 1] == 1, "child must survive its first parent"); b.reset(); }
+            else { b.reset(); expect(g_dtor[base] == 0 && g_dtor[base + 2] == 1, "child must survive its first parent"); a.reset(); }
+            expect(g_dtor[base] == 1 && g_dtor[base + 1] == 1 && g_dtor[base + 2] == 1, "each destroyed exactly once");
+        }
+    }
+    else if (sc == "container") {          // handles stored in a container inside a managed object
+        struct Dir : public tlx::ReferenceCounter { std::vector<P> kids; };
+        using PD = tlx::CountingPtr<Dir>;
+        PD d(new Dir());
+        P keep;
+        for (int i = 0; i < 8; ++i) d->kids.push_back(P(new Node()));           // ids 0..7 (vector growth copies/moves handles)
+        keep = d->kids[3];
+        d->kids.erase(d->kids.begin() + 1);                                      // move-assignments between elements; id 1 dies
+        expect(g_dtor[1] == 1 && d->kids.size() == 7 && d->kids[2]->id == 3 && keep.use_count() == 2, "erase inside the container");
+        d->kids[0] = d->kids[5];                                                  // id 0 dies, id 6 shared
+        expect(g_dtor[0] == 1 && d->kids[0]->id == 6 && d->kids[0].use_count() == 2, "assignment between elements");
+        PD d2 = d; d2.unify();                                                    // a copy of the directory shares all children
+        expect(d2.unique() && d.unique() && keep.use_count() == 3, "unify of an object holding a container of handles");
+        d.reset(); d2.reset();
+        for (int i = 0; i < 8; ++i) expect(g_dtor[i] == (i == 3 ? 0 : 1), "children destroyed with their last directory, except the one still held");
+        keep.reset();
+        expect(g_dtor[3] == 1, "last child");
+    }
+    else if (sc == "tree") {               // a binary tree of depth 10 released from the root, and a subtree kept alive by an outside handle
+        std::vector<P> level{P(new Node())};
+        P root = level[0], kept;
+        for (int d = 0; d < 10; ++d) {
+            std::vector<P> nxt;
+            for (auto& n : level) { n->next = P(new Node()); n->other = P(new Node()); nxt.push_back(n->next); nxt.push_back(n->other); }
+            if (d == 4) kept = nxt[5];
+            level.swap(nxt);
+        }
+        level.clear();
+        size_t total = g_dtor.size();
+        root.reset();
+        size_t dead = 0; for (size_t i = 0; i < total; ++i) { dead += g_dtor[i]; expect(g_dtor[i] <= 1, "destroyed twice"); }
+        expect(dead == total - 63, "everything but the kept subtree (2^6 - 1 nodes) is destroyed");
+        kept.reset();
+        for (size_t i = 0; i < total; ++i) expect(g_dtor[i] == 1, "each node exactly once");
+    }
     else if (sc == "empty_use_count") {    // not a nested-handle case: use_count() of an empty handle (std::shared_ptr: 0)
         P e;
         expect(!e.unique(), "unique() of an empty handle");
